@@ -160,6 +160,11 @@ def check_consts_py(ctx, b, witness):
         else:
             expect(info["get_fixed_port_id"], port, "get_fixed_port_id()")
             expect(info["PORT"], port, "_FIXED_PORT_ID_")
+        if "model_consts" in info:
+            expect(info["model_consts"], {c.name: str(c.value.native_value) for c in M.inner(t).constants}, "constants of the embedded model (_MODEL_)")
+            expect(info["model_fields"], [f.name for f in M.inner(t).fields_except_padding], "field names of the embedded model (_MODEL_)")
+            if not t.has_parent_service:
+                expect(info["model_port"], port, "fixed port-ID of the embedded model (_MODEL_)")
         for c in M.inner(t).constants:
             kind, want = const_expect(c)
             got = info["consts"].get(c.name)
@@ -220,7 +225,7 @@ def check_sizes(ctx, b, R, witness, toosmall):
                 ctx.count("undersized_refused")
 
 
-def run_set(ctx, item):
+def run_set(ctx, item, sizes=True):
     idx, dsdl_dir, roots, parsed = item
     R = random.Random("c05/%s/%s" % (ctx.seed, idx))
     wd = ctx.sub("work_%s" % idx)
@@ -250,7 +255,8 @@ def run_set(ctx, item):
             check_consts_py(ctx, b, witness)
         else:
             check_consts_c(ctx, b, witness, b.lang == "cpp")
-            check_sizes(ctx, b, R, witness, toosmall=-3)
+            if sizes:
+                check_sizes(ctx, b, R, witness, toosmall=-3)
     W.cleanup_bases(bases)
     shutil.rmtree(wd, ignore_errors=True)
 
@@ -267,6 +273,42 @@ def extra_types(dsdl_dir, root):
         "uint8 CHR = 'a'\nint33 M33 = -4294967296\nfloat64 E = 2.718281828459045\nfloat32 NEGF = -0.5\n@sealed\n")
 
 
+TWIN_A = {
+    "hq/ConstsT.1.0.dsdl": "uint8 K = 7\nfloat32 F = 1.5\nbool B = true\nint16 N = -3\nuint8 v\nhq.InnerT.1.0 i\n@sealed\n",
+    "hq/InnerT.1.0.dsdl": "uint8 L = 1\nuint8 a\n@extent 64\n",
+    "hq/600.PortT.1.0.dsdl": "uint8 v\n@sealed\n",
+    "hq/400.SvcT.1.0.dsdl": "uint8 Q = 1\nuint8 v\n@sealed\n---\nuint8 R = 2\nuint8 v\n@sealed\n",
+    "hq/UnionT.1.0.dsdl": "@union\nuint8 U = 9\nuint8 a\nuint16 b\n@sealed\n",
+}
+# same names, versions and bit length sets; other constants, port-IDs and field names
+TWIN_B = {
+    "hq/ConstsT.1.0.dsdl": "uint8 K = 8\nfloat32 F = 2.5\nbool B = false\nint16 N = -4\nuint8 w\nhq.InnerT.1.0 j\n@sealed\n",
+    "hq/InnerT.1.0.dsdl": "uint8 L = 2\nuint8 b\n@extent 64\n",
+    "hq/601.PortT.1.0.dsdl": "uint8 w\n@sealed\n",
+    "hq/401.SvcT.1.0.dsdl": "uint8 Q = 3\nuint8 w\n@sealed\n---\nuint8 R = 4\nuint8 w\n@sealed\n",
+    "hq/UnionT.1.0.dsdl": "@union\nuint8 U = 10\nuint8 c\nuint16 d\n@sealed\n",
+}
+
+
+def regeneration_history(ctx):
+    """The same interpreter generates a namespace and then an edited version of it (same type names, versions and sizes): the second
+    output must carry the second definition's metadata everywhere."""
+    from vlib import codec, dsdlgen
+    d = ctx.sub("twin")
+    for name, files in (("a", TWIN_A), ("b", TWIN_B)):
+        for rel, text in files.items():
+            os.makedirs(os.path.dirname(os.path.join(d, name, rel)), exist_ok=True)
+            with open(os.path.join(d, name, rel), "w") as f:
+                f.write(text)
+    roots = ["hq"]
+    codec.HISTORY = (os.path.join(d, "a"), roots)
+    try:
+        run_set(ctx, ("regen", os.path.join(d, "b"), roots, dsdlgen.read_all(os.path.join(d, "b"), roots)), sizes=False)
+        ctx.count("regeneration_history_sets")
+    finally:
+        codec.HISTORY = None
+
+
 def run(ctx):
     ctx.rule = ("case = exported constant or (type, buffer size) serialization on a code base; distinct = distinct (language, constant kind, value) checks that agreed")
     ok, why = build.sanitizer_canary(ctx.sub("canary"))
@@ -281,6 +323,7 @@ def run(ctx):
             from vlib import dsdlgen
             item = (idx, dsdl_dir, roots, dsdlgen.read_all(dsdl_dir, roots))
         run_set(ctx, item)
+    regeneration_history(ctx)
     ctx.sample({"type": "…OnlyConstsq.1.0", "constant": "float64 THIRD = 1/3", "probe": "printf of the raw bits of (double)(X)", "oracle": "Fraction(1,3) rounded to binary64, +-1 ULP"})
     ctx.require("constants_ok", 500)
     ctx.require("size_ok", 100)
